@@ -339,3 +339,34 @@ Inductive reach2 (c : cfg) : state * state -> ghost * ghost -> Prop :=
     api_okb (if tag then snd gs else fst gs) o = true ->
     step2 c sts (tag, o) = Ok (sts', ev) ->
     reach2 c sts' (if tag then (fst gs, gstep c (snd gs) o ev) else (gstep c (fst gs) o ev, snd gs)).
+
+(* ---- the model's own trace, in the form the oracle takes ------------------------------------------- *)
+Definition frame_size_of (st : state) (ev : event) : N :=
+  match ev with
+  | EPtr (Some p) =>
+      match frame_at (a_frames (st_a st)) (fst p) with Some fr => f_size fr | None => 0 end
+  | _ => 0
+  end.
+
+Definition obs_of (st' : state) (ev : event) : oobs := mkObs ev (frame_size_of st' ev) true true.
+
+Fixpoint mtrace (c : cfg) (st : state) (tbl : list (option loc)) (ops : list hop)
+  : list (hop * oobs) * option hop * ending :=
+  match ops with
+  | [] => ([], None, Done)
+  | o :: rest =>
+    match hop_to_op tbl o with
+    | None => ([], Some o, Crashed)
+    | Some o' =>
+      match step c st o' with
+      | Ok (st', ev) =>
+          let tbl' := if returns_ptr o' then
+                        tbl ++ [match ev with EPtr p => p | _ => None end]
+                      else tbl in
+          let '(tr, last, e) := mtrace c st' tbl' rest in ((o, obs_of st' ev) :: tr, last, e)
+      | Trap => ([], Some o, Trapped)
+      | Exit1 => ([], Some o, Exited)
+      | Crash => ([], Some o, Crashed)
+      end
+    end
+  end.
